@@ -184,7 +184,7 @@ theorem pack_groups_only_equal (o : Opts) (is : List Item) (m : Msg) (hm : m ∈
     exact mem_changes.mpr ⟨p, dedup_sub o hp, e⟩
   · intro d hd
     cases m with
-    | wd4 ns | ann4 a ns | unreach f ns | reach f a nh ns =>
+    | wd4 ns | ann4 a nh ns | unreach f ns | reach f a nh ns =>
       simp only [flat, List.mem_map] at hc hd
       obtain ⟨n, _, e⟩ := hc; obtain ⟨n', _, e'⟩ := hd
       subst e; subst e'; exact ⟨rfl, rfl⟩
@@ -304,12 +304,12 @@ theorem eor_last (o : Opts) (f : Nat) (xs : List Item) :
 /-- an announcement with a 4075-octet attribute set (does not fit a 4096-octet session), an
     ordinary one, a replaced one, a withdrawal, an IPv6 route and two EOR markers -/
 def exItems : List Item :=
-  [ .path ⟨⟨0, ⟨24, 1, 1⟩, some ⟨⟨1, 4075⟩, none⟩⟩, 11⟩,
-    .path ⟨⟨0, ⟨24, 2, 1⟩, some ⟨⟨2, 40⟩, none⟩⟩, 12⟩,
-    .path ⟨⟨0, ⟨24, 2, 2⟩, some ⟨⟨3, 44⟩, none⟩⟩, 13⟩,
+  [ .path ⟨⟨0, ⟨24, 1, 1⟩, some ⟨⟨1, 4075⟩, none⟩⟩, 11, 0⟩,
+    .path ⟨⟨0, ⟨24, 2, 1⟩, some ⟨⟨2, 40⟩, none⟩⟩, 12, 0⟩,
+    .path ⟨⟨0, ⟨24, 2, 2⟩, some ⟨⟨3, 44⟩, none⟩⟩, 13, 0⟩,
     .eor 0,
-    .path ⟨⟨0, ⟨16, 3, 1⟩, none⟩, 0⟩,
-    .path ⟨⟨1, ⟨64, 4, 1⟩, some ⟨⟨4, 50⟩, some ⟨1, 16, 16⟩⟩⟩, 0⟩,
+    .path ⟨⟨0, ⟨16, 3, 1⟩, none⟩, 0, 0⟩,
+    .path ⟨⟨1, ⟨64, 4, 1⟩, some ⟨⟨4, 50⟩, some ⟨1, 16, 16, false⟩⟩⟩, 0, 0⟩,
     .eor 1 ]
 
 def exOpts : Opts := ⟨false, []⟩
@@ -321,12 +321,31 @@ example : SizesOK exItems := by
 
 example : (pack exOpts exItems).length = 6 := by decide
 example : (wire exOpts exItems).length = 5 := by decide
-example : (dropped exOpts exItems) = [Msg.ann4 ⟨1, 4075⟩ [⟨24, 1, 1⟩]] := by decide
+example : (dropped exOpts exItems) = [Msg.ann4 ⟨1, 4075⟩ none [⟨24, 1, 1⟩]] := by decide
 example : (pack exOpts exItems).Perm (pack exOpts exItems) := List.Perm.refl _
 example : Msg.eor 1 ∈ pack exOpts exItems := by decide
 /-- the second announcement of prefix 2 (other path id, ADD-PATH off) replaces the first -/
-example : Msg.ann4 ⟨3, 44⟩ [⟨24, 2, 2⟩] ∈ pack exOpts exItems ∧
-    Msg.ann4 ⟨2, 40⟩ [⟨24, 2, 1⟩] ∉ pack exOpts exItems := by decide
+example : Msg.ann4 ⟨3, 44⟩ none [⟨24, 2, 2⟩] ∈ pack exOpts exItems ∧
+    Msg.ann4 ⟨2, 40⟩ none [⟨24, 2, 1⟩] ∉ pack exOpts exItems := by decide
+
+/-- IPv4 routes whose IPv4 next hop is carried in MP_REACH_NLRI (no NEXT_HOP attribute): two routes
+    of one received UPDATE (same MP_REACH bytes, `grp` 7) share a message with the synthesised
+    NEXT_HOP; a third with identical other attributes but another next hop gets its own message;
+    an RFC 5549 route (IPv6 next hop) goes out in MP_REACH_NLRI -/
+def exMp4 : List Item :=
+  [ .path ⟨⟨0, ⟨24, 1, 1⟩, some ⟨⟨1, 30⟩, some ⟨1, 4, 4, true⟩⟩⟩, 5, 7⟩,
+    .path ⟨⟨0, ⟨24, 2, 1⟩, some ⟨⟨1, 30⟩, some ⟨1, 4, 4, true⟩⟩⟩, 5, 7⟩,
+    .path ⟨⟨0, ⟨24, 3, 1⟩, some ⟨⟨1, 30⟩, some ⟨2, 4, 4, true⟩⟩⟩, 5, 8⟩,
+    .path ⟨⟨0, ⟨24, 4, 1⟩, some ⟨⟨1, 30⟩, some ⟨3, 16, 16, false⟩⟩⟩, 5, 9⟩ ]
+
+example : pack exOpts exMp4 =
+    [ Msg.ann4 ⟨1, 30⟩ (some ⟨1, 4, 4, true⟩) [⟨24, 1, 1⟩, ⟨24, 2, 1⟩],
+      Msg.ann4 ⟨1, 30⟩ (some ⟨2, 4, 4, true⟩) [⟨24, 3, 1⟩],
+      Msg.reach 0 ⟨1, 30⟩ (some ⟨3, 16, 16, false⟩) [⟨24, 4, 1⟩] ] := by decide
+example : SizesOK exMp4 := by
+  intro c hc
+  simp [exMp4, changes, pathOf] at hc
+  rcases hc with h | h | h | h <;> subst h <;> simp [nhLen, nhCLen]
 example : SizesOK (exItems.drop 1) := by
   intro c hc
   simp [exItems, changes, pathOf] at hc
